@@ -3,11 +3,11 @@
 // still decides when a change puts the function out of Verus' reach.
 #![allow(dead_code, unused_imports, unused_variables, unused_macros)]
 // tracing macros (shim: logging has no bearing on the property)
-macro_rules! trace { ($($t:tt)*) => {}; }
-macro_rules! debug { ($($t:tt)*) => {}; }
-macro_rules! info { ($($t:tt)*) => {}; }
-macro_rules! warn { ($($t:tt)*) => {}; }
-macro_rules! error { ($($t:tt)*) => {}; }
+macro_rules! trace { ($($t:tt)*) => { () }; }
+macro_rules! debug { ($($t:tt)*) => { () }; }
+macro_rules! info { ($($t:tt)*) => { () }; }
+macro_rules! warn { ($($t:tt)*) => { () }; }
+macro_rules! error { ($($t:tt)*) => { () }; }
 use std::num::NonZeroU16;
 // shim: bytes::Bytes (the operations take_segments uses; split_to panics beyond the length like the real one)
 #[derive(Debug, Clone, PartialEq, Eq, Default)]
